@@ -1,0 +1,43 @@
+//go:build verif
+
+package crl
+
+import (
+	"time"
+
+	"github.com/gr33nbl00d/caddy-revocation-validator/crl/crlrepository"
+)
+
+// Verification-only accessors (build tag verif).
+
+func (c *CRLRevocationChecker) VerifUpdateCRLs(force bool) { c.updateCRLs(force) }
+
+func (c *CRLRevocationChecker) VerifRepository() *crlrepository.Repository { return c.crlRepository }
+
+func (c *CRLRevocationChecker) VerifUpdateWasRecentlyFinished() bool {
+	return c.updateWasRecentlyFinished()
+}
+
+// VerifResetLastUpdateFinishTime clears the process-global refresh timestamp so that
+// independent harness cases do not influence each other.
+func VerifResetLastUpdateFinishTime() {
+	crlUpdateMutex.Lock()
+	defer crlUpdateMutex.Unlock()
+	lastCrlUpdateFinishTime = time.Time{}
+}
+
+func VerifLastUpdateFinishTime() time.Time {
+	crlUpdateMutex.Lock()
+	defer crlUpdateMutex.Unlock()
+	return lastCrlUpdateFinishTime
+}
+
+func VerifWorkDirsInUse() map[string]int {
+	workDirInUseMutex.Lock()
+	defer workDirInUseMutex.Unlock()
+	m := make(map[string]int)
+	for k, v := range workDirsInUse {
+		m[k] = v
+	}
+	return m
+}
